@@ -13,3 +13,24 @@ CHECKS = {
         'note': 'bs4 stores attribute values verbatim for API-built documents; the reference identifier consumer (vf/ref/ident.py) is trusted; surrogates are expected to round-trip unchanged as the property states.',
     },
 }
+
+CHECKS.update({
+    'C01': {
+        'engine': 'E1', 'level': 'exploration', 'design_ref': 'DESIGN.md §3 C01',
+        'technique': 'bounded-exhaustive enumeration of (tree, selector, call target) triples executed on the real select(), differential against an independent three-valued reference matcher',
+        'text': 'All forests of <=3 (thorough 4, and 5 without interleavings) elements over {a,b} x interleavings of text/comment/CDATA/PI/non-CSS-whitespace nodes x all selector chains of <=3 compounds over type + the eight structural pseudo-classes, :not/:is/:where/:matches/:has lists nested to depth 2, and the attribute/id/class layer (7 operators x i/s flags x value menu), on API-built HTML and XML soups and re-materialised through html.parser, lxml, html5lib and lxml-xml. Exhaustive inside those bounds; nothing is claimed for larger trees, deeper nesting or non-ASCII names.',
+        'note': 'trusts vf/ref/css.py (validated against the repository test triples in vf.selftest); :root is not asserted for detached targets or documents with several top-level elements / top-level text.',
+    },
+    'C02': {
+        'engine': 'E1', 'level': 'exploration', 'design_ref': 'DESIGN.md §3 C02',
+        'technique': 'bounded-exhaustive enumeration of (A,B) x spellings x pseudo-class x of-S filter x sibling rows/interleavings/contexts on the real matcher, against direct An+B arithmetic',
+        'text': 'Every (A,B) in [-3,3]x[-4,4] (thorough [-4,4]x[-7,7] plus +-10, +-100, +-1000) in every spelling the grammar admits, the four pseudo-classes and six of-S filters, against every sibling row of 0..4 (thorough 6) elements with text/comment/CDATA interleavings, as children of an element, of the document object, and as a parentless element; plus keyword equivalences. The verdict depends only on (A, B, position, row length), whose sign/zero/order cases are all realised inside the box.',
+        'note': 'trusts solve_nth (closed-form arithmetic) in vf/ref/css.py; rows use element names a/b and class c only.',
+    },
+    'C03': {
+        'engine': 'E1', 'level': 'exploration', 'design_ref': 'DESIGN.md §3 C03',
+        'technique': 'bounded-exhaustive enumeration of (tree, call target, selector, entry point, limit, argument combination) on the real API, against the reference relation and coherence equations',
+        'text': 'Every tree of <=3 (thorough 4) elements x every call target (document, each element, a parentless copy of each subtree) x a 130-selector pool with every placement of :scope and & x {select, iselect, select_one, match, filter(tag), filter(list), filter(generator), closest} x limits {-2..3, 10}; and every module-level function against compile(pattern, namespaces, flags, custom=custom).method over all combinations of namespaces/flags/custom passed positionally or by keyword.',
+        'note': 'filter(iterable) is judged item by item as match(item) judges it; trusts vf/ref/css.py.',
+    },
+})
